@@ -405,11 +405,13 @@ static void run_nparty(const Group &G, long k, const Scn &sc, Counter &C) {
 	std::vector<bool> isf(n, false), issil(n, false); for (int f : sc.faulty) isf[f] = true; for (int f : sc.silent) issil[f] = true;
 	Rng jit(ctx.seed, runid, 77);
 	long Tw = -1; std::vector<SentMsg> early; std::vector<std::pair<size_t, uint64_t>> late; long long nmsgs = 0;
-	auto fault = [&](size_t from, size_t, mpz_ptr, long &delay, int &) { if ((int)from == sc.slow) delay = sc.D; else if (sc.jitter && jit.below(4) == 0) delay = (long)jit.below(3); return true; };
+	// link delays apply to links between different parties only: a party's messages to itself (the broadcast
+	// layer sends every r-send/echo/ready to the sender too) are a local pipe in every deployment
+	auto fault = [&](size_t from, size_t to, mpz_ptr, long &delay, int &) { if (from == to) return true; if ((int)from == sc.slow) delay = sc.D; else if (sc.jitter && jit.below(4) == 0) delay = (long)jit.below(3); return true; };
 	auto onsend = [&](int net) { return [&, net](size_t from, size_t to_, mpz_srcptr v, long at) {
 		nmsgs++;
 		if (ctx.option("trace", "") == "1") fprintf(stderr, "t=%ld %s %zu->%zu arr=%ld %s\n", g_vtime - t0, net ? "bc" : "uni", from, to_, at - t0, shorten(mpz_b62(v), 12).c_str());
-		if ((int)from == sc.slow) { if (Tw < 0 || at < Tw) Tw = at; return; }
+		if ((int)from == sc.slow) { if (to_ != from && (Tw < 0 || at < Tw)) Tw = at; return; }
 		if (sc.slow < 0) return;
 		if (g_vtime < t0 + sc.D) { SentMsg m; m.from = from; m.at = g_vtime; mpz_set(m.v.v, v); m.net = net; early.push_back(m); }
 		else late.push_back(std::make_pair(from, fnv(mpz_dec(v))));
@@ -502,7 +504,7 @@ static void part_nparty(long &kc, const Group &G) {
 		s.label = kind + " n=" + std::to_string(n) + " t=" + std::to_string(t) + (f.size() ? " faulty=" + fs : "") + (sil.size() ? " silent=" + ss : "") + (slow >= 0 ? " slow=" + std::to_string(slow) + " D=" + std::to_string(D) : "") + (jit ? " jitter" : "");
 		L.push_back(s);
 	};
-	size_t nmax = ctx.quick() ? 5 : 7; int reps = ctx.quick() ? 1 : 3;
+	size_t nmax = ctx.quick() ? 5 : 7; int reps = ctx.quick() ? 1 : 2;
 	for (int rep = 0; rep < reps; rep++) {
 		for (size_t n = 2; n <= nmax; n++) for (size_t t = 0; 2 * t < n; t++) {
 			bool bound = 3 * t < n;
@@ -537,7 +539,7 @@ int main(int argc, char **argv) {
 	Group S = make_group(512, 160, 17);
 	std::string only = ctx.option("part", "");
 	if (only != "twoparty") part_nparty(k, S);       // heavy cases first: better shard balance
-	if (only != "nparty") part_twoparty(k, S, ctx.quick() ? 1 : 12);
+	if (only != "nparty") part_twoparty(k, S, ctx.quick() ? 1 : 8);
 	if (ctx.thorough() && only != "nparty") { Group D = make_group(1024, 256, 27); part_twoparty(k, D, 2); }
 	finish();
 	return 0;
